@@ -116,6 +116,13 @@ def run(prop, tier, seed):
             sc, fpos, structural = plan_scenario([pl], "C06-single-%d" % i)
             scenarios.append(sc)
             meta[sc["id"]] = dict(plans=[pl], fpos=fpos, structural=structural)
+            if pl["n"] > 1:
+                # the batch endpoints spread their entries over GOMAXPROCS workers: the same plan with ONE worker (the whole batch is one
+                # extent; with the machine's 16 every entry of these small batches is an extent of its own) and with two
+                for gmp in (1, 2):
+                    sc2 = dict(sc, id="%s-p%d" % (sc["id"], gmp), gomaxprocs=gmp)
+                    scenarios.append(sc2)
+                    meta[sc2["id"]] = dict(plans=[pl], fpos=fpos, structural=structural)
         # multi-fault sequences: 2-3 plans of the same endpoint and size on one request
         nmulti = 150 if tier == "quick" else 3000
         bykey = {}
@@ -137,6 +144,8 @@ def run(prop, tier, seed):
                 seen.add(key)
                 sel.append(pl)
             sc, fpos, structural = plan_scenario(sel, "C06-multi-%d" % j)
+            if j % 3:
+                sc["gomaxprocs"] = j % 3
             scenarios.append(sc)
             meta[sc["id"]] = dict(plans=sel, fpos=fpos, structural=structural, multi=True)
         # shutdown under load: the store is closed while the request is parked at a storage gate (fetch, store, batch store)
